@@ -183,8 +183,8 @@ static FlavourCase gen_flavours(Choice& ch, int size) {
     c.spec = gen_spec(ch, o, size);
     gen_aliases(ch, c.spec);
     static const std::vector<std::string> others = {
-        "map",      "nohash_vec",   "proj_chk",
-        "proj_map", "deferred_chk", "deferred_nohash"};
+        "map",      "nohash_vec",   "proj_chk",        "proj_map",
+        "deferred_chk", "deferred_nohash", "proj_chk_ind"};
     c.flavours.push_back("chk_vec");
     int k = 2 + ch.draw(2);
     auto pool = others;
